@@ -576,22 +576,26 @@ def main(argv):
                         cand = {"for": "bounded", "kind": "echo", "name": "precedence of `%s`" % bf.get("statement", ""), "files": {"prec.st": bf["input"]},
                                 "expect_contains": [bf["expected"]] if bf.get("expected") else []}
                         clause = "`%s` must be grouped as `%s`, the parser gives `%s`" % (bf.get("statement"), bf.get("expected"), bf.get("rendered", bf.get("problem")))
+                    elif r["name"] == "tokens_tile":
+                        cand = {"for": "bounded", "kind": "tokens_tile", "name": "%s, %s" % (bf["program"], bf["transformation"]), "files": {"f.st": bf["input"]}}
+                        clause = "the tokens of %s (%s) do not tile the text / are reported at another line or column: %s" % (bf["program"], bf["transformation"], "; ".join(bf["problems"])[:200])
                     else:
                         cand = {"for": "bounded", "kind": "bounded_pair", "name": "%s, %s" % (bf["program"], bf["transformation"]),
                                 "original_text": bf["original_text"], "transformed_text": bf["input"], "fold_case": bf["fold_case"]}
                         clause = "%s under the transformation `%s` no longer parses to the same library / gets another verdict" % (bf["program"], bf["transformation"])
-                    f = {"obligation": "bounded/%s/%s" % (r["name"], hashlib.sha256(clause.encode()).hexdigest()[:8]), "kind": "bounded-stand-in", "item": None, "src": "parser/src/parser.rs (peg grammar)",
-                         "clause": clause, "unit": "bounded", "message": "bounded stand-in for the generated parser failed on the real binary",
+                    f = {"obligation": "bounded/%s/%s" % (r["name"], hashlib.sha256(clause.encode()).hexdigest()[:8]), "kind": "bounded-stand-in", "item": None, "src": "parser/src/token.rs (logos) + parser/src/lexer.rs" if r["name"] == "tokens_tile" else "parser/src/parser.rs (peg grammar)",
+                         "clause": clause, "unit": "bounded", "message": "bounded stand-in for the generated %s failed on the real binary" % ("lexer" if r["name"] == "tokens_tile" else "parser"),
                          "witness": {"candidate": cand, "observation": {k: v for k, v in bf.items() if k not in ("input", "original_text")}, "how": "ironplcc built from /repo working tree"}, "replay": rp}
-                    json.dump({"property": pid, "obligation": f["obligation"], "kind": f["kind"], "function": "plc_parser (generated by peg::parser!)", "source": f["src"],
+                    json.dump({"property": pid, "obligation": f["obligation"], "kind": f["kind"], "function": "TokenType::lexer (generated by derive(Logos)) + tokenize" if r["name"] == "tokens_tile" else "plc_parser (generated by peg::parser!)", "source": f["src"],
                                "clause": clause, "verifier": "bounded check of the real binary (tools/bounded.py)", "verifier_message": f["message"], "verifier_output": "",
                                "witness": f["witness"], "note": "replay with ./check %s --replay %s" % (pid, rp)}, open(rp, "w"), indent=1)
                     real_violations.append(f)
 
     # thorough tier: every attached concrete input whose oracle comes from the property itself (verdicts, exit status / OK /
     # diagnostics agreement, LSP == check, same result in every encoding, cycle <=> P0010, protocol discipline) is also run
-    # on the real binary as a bounded stand-in, whatever the verifier said. Inputs that compare against rendered text or a
-    # stored baseline (echo, tokens, golden) stay what they are: replay material for failed obligations.
+    # on the real binary as a bounded stand-in, whatever the verifier said; so are the echo / tokens / lsp inputs, whose
+    # expected renderings, positions and decoded tokens were computed from the property (by hand or by the generators
+    # tools/gen_*_witnesses.py). Inputs that compare against a stored baseline (golden) stay replay material.
     if tier == "thorough":
         try:
             import witness as _w2
